@@ -186,6 +186,30 @@ def pde_problem(c, which, dim):
     if sigma is not None: c.holds('stated_noise_level', abs(var - sigma ** 2) <= 1e-12 * max(1, sigma ** 2))
 
 
+def field_map_option(c, which, field_type):
+    """the `map` option of the PDE-type test problems with every field type: the forward model applied to parameters p is the model WITHOUT map applied to the
+    function values map(field(p)) (documented: "mapping used to modify field"), and the domain geometry is a mapped geometry around the requested field
+    geometry (bounded stand-in: native)"""
+    import warnings, io, contextlib
+    cls = getattr(cuqi.testproblem, which)
+    fp = {'Step': dict(n_steps=4), 'KL': dict(num_modes=4), None: None}[field_type]
+    mp = lambda v: np.exp(0.3 * v) + 0.5; imp = lambda f: np.log(f - 0.5) / 0.3
+    kw = dict(dim=8, field_type=field_type, field_params=fp)
+    with warnings.catch_warnings(), contextlib.redirect_stdout(io.StringIO()):
+        warnings.simplefilter('ignore'); np.random.seed(2)
+        ex = np.ones(8) * 1.5 if which == 'Heat1D' else None          # (avoids the default exact solution, which asks the field geometry for its own parameters)
+        extra = dict(exactSolution=ex) if which == 'Heat1D' else {}
+        tp = cls(map=mp, imap=imp, **kw, **extra); tp0 = cls(**kw, **extra)
+    g, g0 = tp.model.domain_geometry, tp0.model.domain_geometry
+    c.holds('domain_geometry_is_the_mapped_field_geometry', isinstance(g, cuqi.geometry.MappedGeometry) and type(g.geometry) is type(g0), note=f"{type(g).__name__} around {type(getattr(g, 'geometry', None)).__name__} vs {type(g0).__name__}")
+    p = 0.5 + np.array([abs(c.real(f'p{i}')) for i in range(g0.par_dim)])
+    with warnings.catch_warnings():
+        warnings.simplefilter('ignore')
+        out = np.asarray(tp.model.forward(p), dtype=float)
+        ref = np.asarray(tp0.model.forward(mp(np.asarray(g0.par2fun(p), dtype=float)), is_par=False), dtype=float)
+    c.eq('forward_applies_the_map_to_the_field_before_solving', out, ref, tol=1e-9)
+
+
 def jobs(tier):
     J = []
     q = tier == 'quick'
@@ -222,6 +246,9 @@ def jobs(tier):
     J.append(Job('WangCubic', wang, 'Pbox', [f'{T}:WangCubic.__init__'], rtol=1e-6))
     for dk in ('zero', 'symbolic'):
         J.append(Job(f'WangCubic:data={dk}', lambda c, dk=dk: wang(c, dk), 'Pbox', [f'{T}:WangCubic.__init__'], rtol=1e-6))
+    for which in ('Heat1D', 'Poisson1D'):
+        for ft in (None, 'Step', 'KL'):
+            J.append(Job(f'{which}:map_option:field_type={ft}', lambda c, w=which, ft=ft: field_map_option(c, w, ft), 'B', [f'{T}:{which}.__init__'], nnum=2))
     J.append(Job('Poisson1D:dim=8', lambda c: pde_problem(c, 'Poisson1D', 8), 'B', [f'{T}:Poisson1D.__init__'], pre=mk('Poisson1D', dim=8), nnum=3))
     J.append(Job('Heat1D:dim=8', lambda c: pde_problem(c, 'Heat1D', 8), 'B', [f'{T}:Heat1D.__init__'], pre=mk('Heat1D', dim=8), nnum=3))
     return J
